@@ -178,6 +178,27 @@ def run(prop, tier):
         if not rejects:
             for k in range(chunks):
                 os.remove("%s.%d.ndjson" % (pre, k))
+    if prop == "C12":
+        # design model: the loop of split.go (Take / Cut / Final over the reference token stream) satisfies the contract
+        text = "CONSTANTS\n  Alphabet = {97, 59, 32, 47, 42, 45, 10, 39}\n  MaxLen = %d\n  PieceStartsAtComment = TRUE\nSPECIFICATION Spec\nINVARIANTS Covered NoSemiInside Ordered\nCHECK_DEADLOCK FALSE\n" % (4 if tier == "quick" else 5)
+        r = common.tlc_must_pass("Split", text, os.path.join(wd, "split-design"), workers=8, heap="8g", timeout=3000)
+        chk.add_states(r)
+        chk.notes["split_design_states"] = r.distinct
+    if prop == "C20":
+        # spec -> code: FileGen.tla computes the expected values, the real File is replayed
+        out = os.path.join(wd, "filegen.ndjson")
+        text = "CONSTANTS\n  Alphabet = {97, 10, 13, 195}\n  MaxLen = %d\n  OutFile = %s\nSPECIFICATION Spec\nINVARIANTS LineColRoundTrip ExcerptHasLine Emit\nCHECK_DEADLOCK FALSE\n" % (
+            4 if tier == "quick" else 6, common.tla_string(out))
+        r = common.tlc_must_pass("FileGen", text, os.path.join(wd, "filegen"), workers=8, heap="8g", timeout=3000)
+        chk.add_states(r)
+        res = harness_json(["filereplay", "-in", out, "-mism", os.path.join(wd, "filegen.mism")])
+        chk.notes["spec_behaviours_replayed"] = res["behaviours"]
+        total += res["behaviours"]
+        if res["mismatches"]:
+            for l in open(os.path.join(wd, "filegen.mism")):
+                rec = json.loads(l)
+                rejected.setdefault(key_of(prop, rec), rec)
+        os.remove(out)
     chk.cov["traces_validated_against_impl"] = total
     chk.cov["evaluations"] = total
     chk.cov["distinct_nontrivial"] = max(2, total - 1)
